@@ -124,6 +124,9 @@ let rec last_at (s : n list) : n list =
   let rec go l acc = match l with [] -> acc | c :: r -> if int_of_n c = 64 then go r r else go r acc in
   go s s
 
+let cte_s = function SevenBit -> "7bit" | EightBit -> "8bit" | QuotedPrintable -> "quoted-printable" | Base64 -> "base64" | Binary -> "binary"
+let cte_of = function "7bit" -> SevenBit | "8bit" -> EightBit | "quoted-printable" -> QuotedPrintable | "base64" -> Base64 | _ -> Binary
+
 let dispatch (f : Stdlib.String.t list) : Stdlib.String.t =
   match f with
   | ["codec.encode"; st; m] ->
@@ -186,6 +189,16 @@ let dispatch (f : Stdlib.String.t list) : Stdlib.String.t =
   | ["spec.decode_word"; b] -> (match decode_word (unhex b) with Some d -> "some\t" ^ hex d | None -> "none")
   | ["spec.decode_disposition"; b] ->
       (match decode_disposition (unhex b) with Some (k, f) -> Printf.sprintf "some\t%s\t%s" (hex k) (hex f) | None -> "none")
+  | ["body.new"; st; b] -> let (o, e) = body_new (st = "1") (unhex b) in cte_s e ^ "\t" ^ hex o
+  | ["body.with_enc"; st; e; b] ->
+      (match body_new_with_encoding (st = "1") (unhex b) (cte_of e) with
+       | Ok (o, e') -> "ok\t" ^ cte_s e' ^ "\t" ^ hex o | Err x -> "err\t" ^ hex x | Panic -> "panic")
+  | ["body.crlf"; b] -> hex (in_place_crlf (unhex b))
+  | ["spec.crlf"; b] -> hex (crlf_spec (unhex b))
+  | ["spec.qp_decode"; b] -> (match qp_decode (unhex b) with Some o -> "some\t" ^ hex o | None -> "none")
+  | ["spec.b64_body_decode"; b] -> (match b64_body_decode (unhex b) with Some o -> "some\t" ^ hex o | None -> "none")
+  | ["spec.cte_ok"; e; b] ->
+      b01 (match cte_of e with SevenBit -> sevenbit_ok (unhex b) | QuotedPrintable -> qp_lines_ok (unhex b) | Base64 -> b64_lines_ok (unhex b) | _ -> true)
   | fn :: _ -> "UNKNOWN-FN " ^ fn
   | [] -> "EMPTY"
 
